@@ -161,6 +161,10 @@ impl Vm {
       );
     }
 
+    if capacity > u32::MAX as f64 {
+      return self.runtime_error_from_str(self.builtin.errors.value, "buffer is too large.");
+    }
+
     let hooks = GcHooks::new(self);
     let channel = self.manage_obj(Channel::with_capacity(&hooks, capacity as usize));
     self.fiber.push(val!(channel));
